@@ -82,7 +82,18 @@ def base_and_tf(cfg, lo=1.0, hi=20.0, p_none=0.0, allow_finer=True):
     return base_s, tf, tf_seconds(tf)
 
 
+def thorough():
+    """The thorough tier explores deeper bounds (longer streams, hence more appends and operator
+    actions per run); the tier is exported by the CLI and inherited by the forked workers."""
+    import os
+
+    return os.environ.get("VERIF_TIER") == "thorough"
+
+
 def pick_n(cfg, small=(1, 12), mid=(5, 60), large=(20, 300)):
+    if thorough():
+        large = (large[0], min(2 * large[1], 700))
+        mid = (mid[0], 2 * mid[1])
     return cfg.choice((cfg.randint(*small), cfg.randint(*mid), cfg.randint(*large)))
 
 
